@@ -85,6 +85,11 @@ func (fc *FuncContract) propSet() []string {
 			set[t] = true
 		}
 	}
+	for _, c := range fc.AtCalls {
+		for _, t := range c.Tags {
+			set[t] = true
+		}
+	}
 	for _, c := range fc.Checks {
 		for _, t := range c.Tags {
 			set[t] = true
